@@ -32,6 +32,7 @@ type FilterSpec struct {
 	DiscoveryDoc   string   `json:"discoveryDoc"` // variant of the discovery document: "" | "pkcePlainOnly" | "noEndSession"
 	NoLogoutRedirect bool   `json:"noLogoutRedirect"` // logout configured without redirect_uri (taken from discovery)
 	inheritedLogoutPath string
+	CallbackPort     string `json:"callbackPort"`   // "" | "443": the callback URI names the default port explicitly (requests still say Host: app.test)
 	SharedCallback   bool   `json:"sharedCallback"` // all such filters use one callback URI (https://app.test/shared/callback)
 	InheritLogout    bool   `json:"inheritLogout"`    // override-based filter without a logout section of its own: the default's applies
 }
@@ -79,6 +80,7 @@ type Step struct {
 	Kind     string   `json:"kind"`     // app | callback | logout
 	Cookie   string   `json:"cookie"`   // none | jar | sid:<k> | forged | raw:<value>
 	CookieAs string   `json:"cookieAs"` // send the cookie under this filter's cookie name (default F)
+	DecoySid string   `json:"decoySid"` // with decoy "before": the look-alike cookie carries this session id (sid:<k>) instead of a constant
 	Decoy    string   `json:"decoy"`    // "" | "before": a look-alike cookie (x<name>=forged) precedes the real one | "only": the value travels ONLY in a look-alike cookie
 	St       string   `json:"st"`       // callback: none | sid:<k> (state issued with k-th sid) | jar | bogus
 	Code     string   `json:"code"`     // callback: none | code:<k> | jar | bogus
